@@ -146,6 +146,23 @@ def sequence_case(draw):
     return node, envs
 
 
+ERROR_CONTEXTS = ["{e}", "({e}) || true", "true || ({e})", "({e}) && false", "false && ({e})", "true ? 1 : ({e})", "false ? ({e}) : 2", "!({e})", "({e}) ? 1 : 2",
+                  "[1, 2].exists(x, ({e}) || x == 2)", "[1, 2].all(x, ({e}) && x == 3)", "[({e})]", "{{'k': ({e})}}", "({e}) == ({e})", "has({{'a': ({e})}}.a)",
+                  "({e}) || ({e}) || true", "({e}) && ({e}) && false", "true || ({e}) || ({e})"]
+
+
+def error_kind_pass(run: common.Run, report) -> None:
+    """Every kind of failing sub-expression (the pool of C02: by CEL-level cause and by the Python exception class it arrives as) in every absorbing, strict and
+    container context, written with and without redundant parentheses: the two runners agree."""
+    from checks import c02
+
+    for kind, e in sorted(c02.E_POOL.items()):
+        for ctx in ERROR_CONTEXTS:
+            for src in {ctx.format(e=e), ctx.format(e=e).replace("(" + e + ")", e) if " ? " not in e and " || " not in e and " && " not in e else ctx.format(e=e)}:
+                run.event("error-kind-context")
+                check_src(run, src, dict(c02.BINDINGS), {"src": src, "error_kind": kind}, report)
+
+
 def check_names(run: common.Run, bindings: Dict[str, Any], package: Optional[str], ref: str, annotate: bool, report) -> None:
     """A (possibly dotted) reference evaluated against a set of (possibly dotted, overlapping) bindings under a package: I and C agree."""
     from checks import c12
@@ -180,7 +197,11 @@ def _node(x):
 def replay(run: common.Run, case: dict, key: str = ""):
     problems = []
     rep = lambda k, c, d: problems.append((k, d))
-    if case.get("sequence"):
+    if "error_kind" in case:
+        from checks import c02
+
+        check_src(run, case["src"], dict(c02.BINDINGS), {"src": case["src"], "error_kind": case["error_kind"]}, rep)
+    elif case.get("sequence"):
         check_sequence(run, _node(case["node"]), [{n: (v[0], v[1]) for n, v in e_.items()} for e_ in case["envs"]], rep)
     elif case.get("names"):
         check_names(run, case["bindings"], case["package"], case["ref"], case["annotate"], rep)
@@ -248,17 +269,17 @@ def campaign(run: common.Run) -> None:
     def body_names(c):
         check_names(run, c[0], c[1], c[2], c[3], run.hyp_fail)
 
-    common.drive(run, body_typed, {"p": gen.typed_program(4)}, 1200 if q else 20000, seed_salt=1)
-    common.drive(run, body_any, {"p": gen.any_program(4)}, 1500 if q else 25000, seed_salt=2)
+    common.drive(run, body_typed, {"p": gen.typed_program(4)}, 1200 if q else 6000, seed_salt=1)
+    common.drive(run, body_any, {"p": gen.any_program(4)}, 1500 if q else 7000, seed_salt=2)
     from checks import c12
 
     # dotted names: overlapping bindings (a.b and a.b.c), packages, leading-dot references - resolved the same way by both runners
-    common.drive(run, body_names, {"c": c12.random_bindings()}, 500 if q else 8000, seed_salt=6)
+    common.drive(run, body_names, {"c": c12.random_bindings()}, 500 if q else 2500, seed_salt=6)
     # one program object per runner, several activations in a row
-    common.drive(run, body_seq, {"c": sequence_case()}, 400 if q else 8000, seed_salt=7)
-    common.drive(run, body_typed, {"p": gen.nested_macro_program()}, 400 if q else 8000, seed_salt=4)
-    common.drive(run, body_typed, {"p": gen.document_program()}, 600 if q else 10000, seed_salt=5)
-    common.drive(run, body_mut, {"s": progs.mutated_corpus()}, 500 if q else 10000, seed_salt=3)
+    common.drive(run, body_seq, {"c": sequence_case()}, 400 if q else 1500, seed_salt=7)
+    common.drive(run, body_typed, {"p": gen.nested_macro_program()}, 400 if q else 2000, seed_salt=4)
+    common.drive(run, body_typed, {"p": gen.document_program()}, 600 if q else 3000, seed_salt=5)
+    common.drive(run, body_mut, {"s": progs.mutated_corpus()}, 500 if q else 3000, seed_salt=3)
 
 
 def main(run: common.Run) -> None:
@@ -273,6 +294,7 @@ def main(run: common.Run) -> None:
             run.fail(k, doc["case"], d)
         run.event("replayed")
     package_pass(run, run.fail)
+    error_kind_pass(run, run.fail)
     if run.tier == "quick":
         corpus_pass(run, run.fail, shard=(run.seed % 2, 2))
         campaign(run)
